@@ -106,6 +106,22 @@ func genC14(r *Rnd, t Tier) *Case {
 	if len(ops) > 0 {
 		sc.Clients = append(sc.Clients, Client{Ops: ops})
 	}
+	// several goroutines reading the metrics of a shared breaker at once
+	for pi, p := range sc.Policies {
+		if p.Kind == KBreaker {
+			for k := 0; k < 2; k++ {
+				var obs []Op
+				for i, n := 0, r.Range(2, 4); i < n; i++ {
+					obs = append(obs, Op{Kind: "br.observe", Pol: pi})
+					if r.P(0.5) {
+						obs = append(obs, Op{Kind: "sleep", Dur: time.Duration(r.Range(0, 25)) * unit})
+					}
+				}
+				sc.Clients = append(sc.Clients, Client{Ops: obs})
+			}
+			break
+		}
+	}
 	terminating(sc)
 	return &Case{Sc: sc}
 }
